@@ -202,6 +202,16 @@ func drawMediaDoc(t *rapid.T) string {
 		}
 		return out
 	}
+	// in half of the documents EVERY operation has the same default response (one component) with 2-3
+	// content types, JSON among them: the "convenient errors" reduction looks at it
+	var sharedDefault map[string]any
+	if rapid.Bool().Draw(t, "shareddefault") {
+		c := map[string]any{"application/json": map[string]any{"schema": schemaFor("application/json")}}
+		for _, ct := range rapid.Permutation([]string{"text/plain", "application/xml", "application/problem+json", "application/octet-stream", "*/*"}).Draw(t, "defperm")[:rapid.IntRange(1, 2).Draw(t, "defn")] {
+			c[ct] = map[string]any{"schema": schemaFor(ct)}
+		}
+		sharedDefault = map[string]any{"description": "error", "content": c}
+	}
 	paths := map[string]any{}
 	for i, nops := 0, rapid.IntRange(2, 5).Draw(t, "nops"); i < nops; i++ {
 		op := map[string]any{"operationId": fmt.Sprintf("m%d", i)}
@@ -216,10 +226,17 @@ func drawMediaDoc(t *rapid.T) string {
 			}
 			rs[code] = r
 		}
+		if sharedDefault != nil {
+			rs["default"] = map[string]any{"$ref": "#/components/responses/Err"}
+		}
 		op["responses"] = rs
 		paths[fmt.Sprintf("/m%d", i)] = map[string]any{"post": op}
 	}
-	b, _ := json.Marshal(map[string]any{"openapi": "3.0.3", "info": map[string]any{"title": "t", "version": "1"}, "paths": paths})
+	doc := map[string]any{"openapi": "3.0.3", "info": map[string]any{"title": "t", "version": "1"}, "paths": paths}
+	if sharedDefault != nil {
+		doc["components"] = map[string]any{"responses": map[string]any{"Err": sharedDefault}}
+	}
+	b, _ := json.Marshal(doc)
 	return string(b)
 }
 
